@@ -17,6 +17,7 @@ EXPLANATION = (
     "are Lua's operand swaps); (CONCAT) __ADD concatenates exactly when both operands are strings and adds otherwise; "
     "(CHECKER-AGREES) every operator the type checker admits on tuples has the metamethod on the tuple metatable, and "
     "the operators reach Lua unchanged (C01 PIPE: + -> __ADD, others -> the Lua operator)."
+    ' (ARITH __add via __ADD) tuple `+` combines elements with the scalar dispatcher because the checker admits str + str on elements; (CHECKER-AGREES neg) unary minus on tuples is admitted and implemented.'
 )
 UNDECIDED = "the laws over all run-time values (NaN, functions inside composites), and metamethod dispatch rules of the target Lua version."
 
